@@ -139,6 +139,8 @@ Spec == Init /\ [][Next]_vars
 ReadAttrS(m, vl, a) == [i \in 1..Len(m) |-> vl[a][m[i]]]
 ReadAttr(a) == ReadAttrS(members, val, a)
 ReadNames   == [i \in 1..Len(members) |-> name[members[i]]]
+\* lookup by position: group[i] is members[i] for every valid Python index (-n .. n - 1), slices select sub-sequences in
+\* member order, an index outside that range raises (checked by the harness on the member sequence below)
 \* lookup by unique name; "none" stands for an observer without a name (raysect's default, name = None): it cannot be
 \* looked up and does not stand in the way of the named members
 Count(n)    == Cardinality({i \in 1..Len(members) : name[members[i]] = n})
